@@ -105,7 +105,13 @@ impl JwtCredentialValidatorUtils {
       Some(status) => {
         let status = StatusList2021Entry::try_from(status)
           .map_err(|e| JwtValidationError::InvalidStatus(crate::Error::InvalidStatus(e.to_string())))?;
-        if Some(status.status_list_credential()) == status_list_credential.id.as_ref()
+        // The URL of the status list credential: its own `id`, or the id of its subject for a credential without
+        // one (the same rule `StatusList2021Credential::set_credential_status` applies when it creates the entry).
+        let status_list_credential_url = status_list_credential
+          .id
+          .as_ref()
+          .or_else(|| StatusList2021Credential::id(status_list_credential));
+        if Some(status.status_list_credential()) == status_list_credential_url
           && status.purpose() == status_list_credential.purpose()
         {
           let entry_status = status_list_credential
